@@ -50,12 +50,12 @@ Theorem C19_fix_splice_is_repaint : forall (R : Type) (blank : R) (line : Type) 
   = win R (f (firstn r1 buf ++ ins ++ skipn e buf)) W h.
 Proof. exact drawfix_splice_is_repaint. Qed.
 Print Assumptions C19_fix_splice_is_repaint.
-(* outside fix_pre the claim fails: the call of vi_change after a character-wise change on an empty
-   buffer, vi_drawfix(0,-1,0,0), damages a correct screen (known finding KF-EMPTY-CHANGE) *)
-Theorem C19_empty_change_refuted : exists (f : nat -> nat) h, 1 <= h /\
+(* the precondition is needed: vi_drawfix(0,-1,0,0) -- the call vi_change made after a character-wise change on an
+   empty buffer before fix 835c133 -- lies outside fix_pre and damages a correct screen *)
+Theorem C19_fix_pre_needed : exists (f : nat -> nat) h, 1 <= h /\
   drawfix nat 0 f 0 h 0%Z (-1)%Z 0%Z (win nat f 0 h) <> win nat f 0 h.
-Proof. exact empty_change_refuted. Qed.
-Print Assumptions C19_empty_change_refuted.
+Proof. exact fix_pre_needed. Qed.
+Print Assumptions C19_fix_pre_needed.
 
 (* the redraw decision at the tail of vi(): full redraw, one-line redraw, or scroll + highlight rows *)
 Theorem C19_tail_is_repaint : forall (R : Type) (blank : R) (g f : nat -> R) h (mr mw lc hll : bool) otop xtop orow xrow,
@@ -73,19 +73,13 @@ Theorem C19_window_follows : forall xtop xrow h len, (1 <= h)%Z -> (0 <= len)%Z 
   (t <= r < t + h /\ 0 <= t /\ 0 <= r /\ (0 < len -> r < len) /\ (len = 0 -> r = 0))%Z.
 Proof. exact wfix_follows. Qed.
 Print Assumptions C19_window_follows.
-(* the xleft rule: the cursor's cell is on the screen and the terminal cursor is put on it, provided
-   the steering column xcol is the column of the cursor's own cell *)
-Theorem C19_window_follows_horizontal : forall xleft xcol cols ccol, (1 <= cols)%Z -> (0 <= xleft)%Z -> (0 <= xcol)%Z ->
-  ccol = xcol ->
-  let l := fix_left xleft xcol cols in (l <= ccol < l + cols)%Z /\ term_col l cols ccol = (ccol - l)%Z.
+(* the xleft rule (steered by the cursor's own column wcol = vi_off2col(xb, xrow, xoff) since fix 232fd9e): the
+   cursor's cell is inside [xleft, xleft + cols) and term_pos puts the terminal cursor exactly on it -- no side
+   condition any more (before the fix the rule was steered by the column remembered by j/k, and this failed) *)
+Theorem C19_window_follows_horizontal : forall xleft wcol cols, (1 <= cols)%Z -> (0 <= xleft)%Z -> (0 <= wcol)%Z ->
+  let l := fix_left xleft wcol cols in (l <= wcol < l + cols)%Z /\ term_col l cols wcol = (wcol - l)%Z.
 Proof. exact cursor_cell_visible. Qed.
 Print Assumptions C19_window_follows_horizontal.
-(* without the proviso it fails (known finding KF-STICKY-LEFT: j k ^E ^Y keep the remembered column) *)
-Theorem C19_sticky_left_refuted : exists xleft xcol cols ccol,
-  (1 <= cols)%Z /\ (0 <= xleft)%Z /\ (0 <= ccol <= xcol)%Z /\
-  let l := fix_left xleft xcol cols in ~ (l <= ccol < l + cols)%Z /\ term_col l cols ccol <> (ccol - l)%Z.
-Proof. exact sticky_left_refuted. Qed.
-Print Assumptions C19_sticky_left_refuted.
 
 (* the command loop keeps "the text rows are the repaint of the current rows at the current top and
    the cursor line is in the window", for every sequence of commands whose bodies meet step_ok.
